@@ -43,7 +43,9 @@ THEOREMS = ['C14_intersect_characterised', 'C14_complete', 'C14_sound', 'C14_x_s
             'C14_float_complete_margin', 'C14_float_complete_enter_exit', 'C14_float_complete_point',
             'C14_float_complete_checked', 'C14_margin_formats_ok', 'C14_float_complete_binary64', 'C14_float_complete_binary32',
             # the same on primitive floats (Properties/C14_prim.v)
-            'C14_prim_run_is_flocq_run', 'C14_prim_box_and_reciprocal', 'C14_prim_x_slab_nan_loses_the_ray', 'C14_prim_known_class_is_lost', 'C14_prim_neg_zero_face_loses_the_ray', 'C14_prim_zero_component_outside_slab_is_rejected', 'C14_prim_x_slab_nan_refuted', 'C14_prim_neg_zero_face_refuted', 'C14_prim_float_complete_margin', 'C14_prim_float_complete_enter_exit', 'C14_prim_float_complete_point', 'C14_prim_margin_side_conditions_checked', 'C14_prim_float_complete_binary64']
+            'C14_prim_run_is_flocq_run', 'C14_prim_box_and_reciprocal', 'C14_prim_x_slab_nan_loses_the_ray', 'C14_prim_known_class_is_lost', 'C14_prim_neg_zero_face_loses_the_ray', 'C14_prim_zero_component_outside_slab_is_rejected', 'C14_prim_x_slab_nan_refuted', 'C14_prim_neg_zero_face_refuted', 'C14_prim_float_complete_margin', 'C14_prim_float_complete_enter_exit', 'C14_prim_float_complete_point', 'C14_prim_margin_side_conditions_checked', 'C14_prim_float_complete_binary64',
+            # the same on the executed f32 instance (Properties/C14_prim32.v)
+            'C14_prim32_run_is_flocq_run', 'C14_prim32_embedded_run_is_flocq_run', 'C14_prim32_box_and_reciprocal', 'C14_prim32_known_class_is_lost', 'C14_prim32_neg_zero_face_loses_the_ray', 'C14_prim32_float_complete_margin', 'C14_prim32_margin_side_conditions_checked', 'C14_prim32_float_complete_binary32', 'C14_prim32_float_complete_binary32_fast']
 
 def streams(tier):
     if tier == 'quick': return [Stream('C14', 4000)]
